@@ -4,6 +4,7 @@ package dns
 
 import (
 	"context"
+	"errors"
 	"fmt"
 	"math/big"
 	"net"
@@ -68,13 +69,26 @@ type c56Script struct {
 	log     []c56Lookup
 	host    string
 	badHost string
+	// script, when non-empty, fixes the outcome of the i-th lookup: 'S' ok,
+	// 'F' temporary lookup error, 'R' lookup ok but the ClientConn rejects the
+	// update; lookups beyond the script succeed. It overrides ansOK.
+	script  string
+	lastAns byte
 }
 
 func (s *c56Script) LookupHost(ctx context.Context, host string) ([]string, error) {
 	s.mu.Lock()
 	i := len(s.log)
 	ok := s.ansOK
-	s.log = append(s.log, c56Lookup{Start: time.Since(s.start), OK: ok})
+	if s.script != "" {
+		ans := byte('S')
+		if i < len(s.script) {
+			ans = s.script[i]
+		}
+		s.lastAns = ans
+		ok = ans != 'F'
+	}
+	s.log = append(s.log, c56Lookup{Start: time.Since(s.start), OK: ok && s.lastAns != 'R'})
 	if host != s.host {
 		s.badHost = host
 	}
@@ -159,22 +173,31 @@ type c56TLResult struct {
 	AfterErr    int // lookups that followed a failed one (backoff window checked)
 	MaxK        int
 	KCount      [12]int // retries judged after k consecutive failures (k capped at 11)
+	RetriesAfterRecovery int // retries judged after the FIRST failure following a success that itself followed failures
 	StaleToken  int // lookups after a success for which no ResolveNow arrived AFTER that success
 	Closed      bool
 	Updates     int
 	ErrsReported int
 }
 
-func c56RunTimeline(t *testing.T, pass c56Pass, hist []int) (res c56TLResult) {
+func c56RunTimeline(t *testing.T, pass c56Pass, hist []int, script string) (res c56TLResult) {
 	defer func() {
 		if p := recover(); p != nil {
 			res.Fails = append(res.Fails, c56Fail{"panic", fmt.Sprint(p)})
 		}
 	}()
 	synctest.Test(t, func(t *testing.T) {
-		scr := &c56Script{start: time.Now(), ansOK: true, latency: pass.Latency, host: "svc.example.com"}
+		scr := &c56Script{start: time.Now(), ansOK: true, latency: pass.Latency, host: "svc.example.com", script: script}
 		internal.NewNetResolver = func(string) (internal.NetResolver, error) { return scr, nil }
 		cc := &c56RecCC{}
+		cc.onUpd = func(resolver.State) error {
+			scr.mu.Lock()
+			defer scr.mu.Unlock()
+			if scr.lastAns == 'R' {
+				return errors.New("c56: scripted rejection by the ClientConn")
+			}
+			return nil
+		}
 		fail := func(step int, class, f string, a ...any) {
 			if len(res.Fails) == 0 {
 				res.FailAt = step
@@ -202,6 +225,7 @@ func c56RunTimeline(t *testing.T, pass c56Pass, hist []int) (res c56TLResult) {
 		seen := 0              // lookups whose START has been judged
 		endSeen := 0           // lookups whose completion has been processed
 		lookupsAtClose := -1
+		recovered := false     // some success has followed a run of failures
 		now := func() time.Duration { return time.Since(scr.start) }
 		observe := func(step int) {
 			scr.mu.Lock()
@@ -240,6 +264,9 @@ func c56RunTimeline(t *testing.T, pass c56Pass, hist []int) (res c56TLResult) {
 								res.MaxK = k
 							}
 							res.KCount[min(k, 11)]++
+							if k == 1 && recovered {
+								res.RetriesAfterRecovery++
+							}
 							lo, hi := c56RetryWindow(pass.Jitter, k)
 							if gap < lo || gap > hi {
 								fail(step, "retry-outside-backoff", "lookup #%d started %v after failure #%d in a row (completed at %v); exponential backoff allows [%v, %v]", seen+1, gap, k, p.End, lo, hi)
@@ -252,6 +279,9 @@ func c56RunTimeline(t *testing.T, pass c56Pass, hist []int) (res c56TLResult) {
 				if endSeen < seen && lg[endSeen].Done {
 					// COMPLETION of lookup #endSeen+1
 					if lg[endSeen].OK {
+						if k > 0 {
+							recovered = true
+						}
 						k = 0
 						rnSinceOK = 0
 					} else {
@@ -367,6 +397,7 @@ func c56LogString(l []c56Lookup) string {
 type c56Replay struct {
 	Pass   string   `json:"pass"`
 	Events []string `json:"events"`
+	Script string   `json:"script,omitempty"`
 }
 
 func TestVerif_C56_LookupPacing(t *testing.T) {
@@ -374,7 +405,7 @@ func TestVerif_C56_LookupPacing(t *testing.T) {
 	r := vk.Start(t, "c56_lookup_pacing", "exploration", P)
 	defer r.Finish()
 	depth := r.Pick(6, 8)
-	r.Rule(P, fmt.Sprintf("every event history of length exactly %d (oracle checked after every prefix; histories containing an exact no-op event - answer mode set to what it already is, second Close - are skipped because the shorter history without it is a prefix of another one) over {ResolveNow, advance 1s/29s/30s/31s, next lookups answer ok, next lookups answer a temporary error, Close}, in 3 passes (retry jitter 0 with instant lookups; jitter 0 with 1 s lookups; default jitter 0.2 with instant lookups and length %d), each in a fresh synctest bubble around the real Build()/watcher with a scripted NetResolver and recording ClientConn; non-trivial = distinct histories with at least two lookups (a pacing gap was judged)", depth, depth-1))
+	r.Rule(P, fmt.Sprintf("every event history of length exactly %d (oracle checked after every prefix; histories containing an exact no-op event - answer mode set to what it already is, second Close - are skipped because the shorter history without it is a prefix of another one) over {ResolveNow, advance 1s/29s/30s/31s, next lookups answer ok, next lookups answer a temporary error, Close}, in 3 passes (retry jitter 0 with instant lookups; jitter 0 with 1 s lookups; default jitter 0.2 with instant lookups and length %d), each in a fresh synctest bubble around the real Build()/watcher with a scripted NetResolver and recording ClientConn; PLUS, in the same passes, every history of length %d over {ResolveNow, advance 1s, advance 31s} for every fixed outcome string of the first 7 lookups (ok / temporary error; thorough also ok-but-ClientConn-rejects; later lookups succeed), which reaches mixed runs F^n S F, F S F F, S F S F ... with n up to 7: the retry window is that of the k-th consecutive failure SINCE THE LAST SUCCESS; non-trivial = distinct histories with at least two lookups (a pacing gap was judged)", depth, depth-1, r.Pick(5, 6)))
 	oldNR, oldJ := internal.NewNetResolver, ibackoff.DefaultExponential.Config.Jitter
 	defer func() { internal.NewNetResolver, ibackoff.DefaultExponential.Config.Jitter = oldNR, oldJ }()
 	byName := map[string]int{}
@@ -396,9 +427,9 @@ func TestVerif_C56_LookupPacing(t *testing.T) {
 				h = append(h, byName[e])
 			}
 			ibackoff.DefaultExponential.Config.Jitter = p.Jitter
-			res := c56RunTimeline(t, p, h)
+			res := c56RunTimeline(t, p, h, rp.Script)
 			r.Eval(P, 1)
-			fmt.Printf("replay pass=%s events=%v lookups=%s\n", p.Name, rp.Events, c56LogString(res.Log))
+			fmt.Printf("replay pass=%s script=%q events=%v lookups=%s\n", p.Name, rp.Script, rp.Events, c56LogString(res.Log))
 			for _, f := range res.Fails {
 				fmt.Printf("FAIL %s: %s\n", f.Class, f.Desc)
 				r.Violation(P, "pacing/"+f.Class+"/"+p.Name, f.Desc, rp)
@@ -415,6 +446,66 @@ func TestVerif_C56_LookupPacing(t *testing.T) {
 	sampled := 0
 	idx := 0
 	h := make([]int, depth)
+	var mixedEvals, postSuccessRetries int64
+	msampled := 0
+	scriptName := func(s string) string {
+		if s == "" {
+			return "(none: answer mode events)"
+		}
+		return s + " then S..."
+	}
+	account := func(p c56Pass, h []int, script string) {
+		res := c56RunTimeline(t, p, h, script)
+		evals++
+		for _, f := range res.Fails {
+			if f.Class == "engine" {
+				r.EngineError("%s", f.Desc)
+				continue
+			}
+			fh := h
+			if res.FailAt <= len(h) {
+				fh = h[:res.FailAt]
+			}
+			evs := make([]string, len(fh))
+			for i, e := range fh {
+				evs[i] = c56Events[e]
+			}
+			r.Violation(P, "pacing/"+f.Class+"/"+p.Name, f.Desc+"\n  pass: "+p.Name+"\n  lookup outcomes script: "+scriptName(script)+"\n  history: "+c56HistString(fh)+"\n  lookups: "+c56LogString(res.Log), c56Replay{Pass: p.Name, Events: evs, Script: script})
+		}
+		if res.Lookups >= 2 {
+			nontriv++
+		}
+		afterOK += int64(res.AfterOK)
+		afterErr += int64(res.AfterErr)
+		stale += int64(res.StaleToken)
+		for i, n := range res.KCount {
+			kCount[i] += int64(n)
+		}
+		if res.Closed {
+			closedWith++
+		}
+		if script != "" {
+			if p.Jitter == 0 {
+				r.Outcome(P, fmt.Sprintf("mixed:%s:lookups=%d,afterOK=%d,afterErr=%d", p.Name, res.Lookups, res.AfterOK, res.AfterErr))
+			} else {
+				r.Outcome(P, "mixed:"+p.Name+":run")
+			}
+			mixedEvals++
+			postSuccessRetries += int64(res.RetriesAfterRecovery)
+			if msampled < 2 && p.Jitter == 0 && res.RetriesAfterRecovery > 0 && res.MaxK >= 3 {
+				msampled++
+				r.Sample(P, map[string]any{"pass": p.Name, "script": script, "history": c56HistString(h), "lookups": c56LogString(res.Log)})
+			}
+		} else if p.Jitter == 0 {
+			r.Outcome(P, fmt.Sprintf("pacing:%s:lookups=%d,afterOK=%d,afterErr=%d,closed=%v,stale=%d", p.Name, res.Lookups, res.AfterOK, res.AfterErr, res.Closed, res.StaleToken))
+			if sampled < 2 && res.AfterOK > 0 && res.AfterErr > 1 {
+				sampled++
+				r.Sample(P, map[string]any{"pass": p.Name, "history": c56HistString(h), "lookups": c56LogString(res.Log)})
+			}
+		} else {
+			r.Outcome(P, "pacing:"+p.Name+":run")
+		}
+	}
 	for _, p := range c56Passes {
 		ibackoff.DefaultExponential.Config.Jitter = p.Jitter
 		depth, total := depth, total
@@ -453,51 +544,67 @@ func TestVerif_C56_LookupPacing(t *testing.T) {
 				skipped++
 				continue
 			}
-			res := c56RunTimeline(t, p, h)
-			evals++
-			for _, f := range res.Fails {
-				if f.Class == "engine" {
-					r.EngineError("%s", f.Desc)
-					continue
-				}
-				fh := h
-				if res.FailAt <= len(h) {
-					fh = h[:res.FailAt]
-				}
-				evs := make([]string, len(fh))
-				for i, e := range fh {
-					evs[i] = c56Events[e]
-				}
-				r.Violation(P, "pacing/"+f.Class+"/"+p.Name, f.Desc+"\n  pass: "+p.Name+"\n  history: "+c56HistString(fh)+"\n  lookups: "+c56LogString(res.Log), c56Replay{Pass: p.Name, Events: evs})
-			}
-			if res.Lookups >= 2 {
-				nontriv++
-			}
-			afterOK += int64(res.AfterOK)
-			afterErr += int64(res.AfterErr)
-			stale += int64(res.StaleToken)
-			for i, n := range res.KCount {
-				kCount[i] += int64(n)
-			}
-			if res.Closed {
-				closedWith++
-			}
-			if p.Jitter == 0 {
-				r.Outcome(P, fmt.Sprintf("pacing:%s:lookups=%d,afterOK=%d,afterErr=%d,closed=%v,stale=%d", p.Name, res.Lookups, res.AfterOK, res.AfterErr, res.Closed, res.StaleToken))
-				if sampled < 2 && res.AfterOK > 0 && res.AfterErr > 1 {
-					sampled++
-					r.Sample(P, map[string]any{"pass": p.Name, "history": c56HistString(h), "lookups": c56LogString(res.Log)})
-				}
-			} else {
-				r.Outcome(P, "pacing:"+p.Name+":run")
-			}
+			account(p, h, "")
 			if evals%4096 == 0 && r.OverBudget() {
 				r.Cap(P, "pacing: time budget hit")
 				goto done
 			}
 		}
 	}
+	// ---- second family: lookup outcomes fixed per lookup (mixed failure/success runs) ----
+	{
+		outs := "SF"
+		if r.Thorough() {
+			outs = "SFR"
+		}
+		mEvents := []int{c56EvRN, c56EvAdv1, c56EvAdv31}
+		M, D := 7, r.Pick(5, 6)
+		nScripts, nHist := 1, 1
+		for i := 0; i < M; i++ {
+			nScripts *= len(outs)
+		}
+		for i := 0; i < D; i++ {
+			nHist *= len(mEvents)
+		}
+		sb := make([]byte, M)
+		for _, p := range c56Passes {
+			ibackoff.DefaultExponential.Config.Jitter = p.Jitter
+			D, nHist := D, nHist
+			if p.Jitter != 0 {
+				D, nHist = D-1, nHist/len(mEvents)
+			}
+			mh := make([]int, D)
+			for sc := 0; sc < nScripts; sc++ {
+				x := sc
+				for k := M - 1; k >= 0; k-- {
+					sb[k] = outs[x%len(outs)]
+					x /= len(outs)
+				}
+				script := string(sb)
+				for code := 0; code < nHist; code++ {
+					mine := r.Mine(idx)
+					idx++
+					if !mine {
+						continue
+					}
+					x := code
+					for k := D - 1; k >= 0; k-- {
+						mh[k] = mEvents[x%len(mEvents)]
+						x /= len(mEvents)
+					}
+					account(p, mh, script)
+					if evals%4096 == 0 && r.OverBudget() {
+						r.Cap(P, "pacing (mixed outcomes): time budget hit")
+						goto done
+					}
+				}
+			}
+		}
+		r.Set(P, "mixed_family", fmt.Sprintf("outcome alphabet %q, script length %d (later lookups succeed), event histories of length %d over {ResolveNow, adv1s, adv31s}", outs, M, D))
+	}
 done:
+	r.AddInt(P, "mixed_histories_run", mixedEvals)
+	r.AddInt(P, "mixed_retries_judged_for_first_failure_after_a_recovery", postSuccessRetries)
 	r.Eval(P, evals)
 	r.NontrivialN(P, nontriv)
 	r.AddInt(P, "pacing_lookups_after_success_judged", afterOK)
